@@ -192,6 +192,9 @@ def build(ctx):
     counter_bulk.commit_transfer(ctx, ex3)
     counter_bulk.cleanup_loops(ctx)
     counter_bulk.closed_world(ctx, ex3)
+    # each procedure call is treated as one atomic step; that rests on the row locks its first reads take (a commit or a
+    # cancellation racing with itself would otherwise move the same totals twice)
+    SP.lock_discipline(ctx, ex3, ['commit_batch_update', 'cancel_job_group'])
     SP.engine_obligations(ctx, ex3)
     ctx.undecided('commit_batch_update for updates other than the first: the set-oriented re-evaluation of the update\'s job rows (UPDATE jobs ... through the trigger contract) is not stated here (C05 covers the recomputed state); the step from per-statement deltas to the global invariant is the paper induction with meta-lemmas L1/L2')
     ctx.undecided('layer-2 clause (iii): every jobs UPDATE touches only committed jobs or leaves the summands unchanged (ties C01 to C41; mark_job_complete children statement is the known exception F1)')
